@@ -207,6 +207,92 @@ def make_mstep_rounding(n=2, cov_type="full", xmax=10 ** 8):
                       theory="QF_NRA", timeout_ms=120000)
 
 
+def make_init_responsibilities(n, K, xmax=1000):
+    """k-means++-style initialisation of the real GaussianMixture on symbolic 1-d data of any spread: the initial responsibilities
+    (a softmax of squared distances to the chosen centres) must be normalisable for every point. In double precision exp(-d^2/2) is
+    exactly 0 beyond d ~ 38.6; the range abstraction of exp (C04's RangeFloatOps) makes that visible to the real-arithmetic solver."""
+    from vf.engine.core import DomainError
+    from vf.props.c04 import RangeFloatOps
+
+    class Stop(Exception):
+        pass
+
+    def harness(ctx: PathCtx):
+        xs = [real(ctx, f"x{i}", lo=-xmax, hi=xmax) for i in range(n)]
+        for a, b in zip(xs, xs[1:]):
+            ctx.assume(a.term() < b.term())  # distinct points, sorted (w.l.o.g.)
+        X = sarr([[x] for x in xs])
+        sw = sarr([SymReal.const(Fraction(1, n))] * n)
+        rfo = RangeFloatOps(ctx)
+        draws = {"k": 0}
+
+        class Rng:
+            def rand(self, *a):
+                draws["k"] += 1
+                return real(ctx, f"rand{draws['k']}", lo=0, hi=1, hi_strict=True)
+
+        def searchsorted(cum, r, side="left"):
+            cum = list(np.asarray(cum, dtype=object).reshape(-1))
+            idx = 0
+            for c in cum:
+                if bool(c < r):
+                    idx += 1
+                else:
+                    break
+            return min(idx, len(cum))
+        gm = GaussianMixture(n_components=K, covariance_type="full")
+        gm._rng = Rng()
+        seen = {}
+
+        def capture(X_, resp, w_):
+            seen["resp"] = np.asarray(resp, dtype=object).copy()
+            raise Stop()
+        gm._m_step = capture
+        try:
+            with patched(cluster_mod, np=NpProxy(object_constructors=True, overrides={"exp": rfo.exp, "searchsorted": searchsorted})):
+                gm._initialize_parameters(X, sw)
+        except Stop:
+            pass
+        except DomainError as e:
+            ctx.fail("initial-responsibilities-are-normalisable(no 0/0)", f"division by a row sum that is exactly 0 in double precision: {e}")
+            return None
+        except IndexError as e:
+            ctx.fail("initial-centres-are-data-points", f"IndexError: {e}")
+            return None
+        ctx.ok("initial-responsibilities-are-normalisable(no 0/0)")
+        R = seen["resp"]
+        conds = []
+        for i in range(n):
+            row = [SymReal.lift(v) if not isinstance(v, float) else SymReal.const(Fraction(v)) for v in R[i]]
+            conds.append(eq(_sum(row), 1))
+            conds += [le(0, v) for v in row]
+        ctx.check("initial-responsibilities-rows-are-distributions", z3.And(*conds))
+        return None
+
+    def replay(m, label, v):
+        import warnings as _w
+        xs0 = np.array([float(m.get(f"x{i}", i)) for i in range(n)])
+        cands = [xs0] + [np.arange(n, dtype=float) * sp for sp in (50.0, 300.0, 900.0 / max(n - 1, 1))]
+        for xs in cands:
+            X = xs.reshape(n, 1)
+            for seed in range(4):
+                with _w.catch_warnings(), np.errstate(all="ignore"):
+                    _w.simplefilter("ignore")
+                    g = GaussianMixture(n_components=K, random_state=seed).fit(X)
+                bad = not (np.all(np.isfinite(g.weights_)) and np.all(np.isfinite(g.means_)) and np.all(np.isfinite(g.covariances_))
+                           and abs(float(np.sum(g.weights_)) - 1.0) < 1e-8)
+                if bad:
+                    return {"reproduced": True, "signature": "GaussianMixture.fit:initial-responsibilities-underflow", "payload": {"X": xs.tolist(), "seed": seed, "weights": np.asarray(g.weights_).tolist()},
+                            "what": f"GaussianMixture(n_components={K}, random_state={seed}).fit on the points {xs.tolist()}: weights {np.asarray(g.weights_).tolist()}, "
+                                    f"means {np.asarray(g.means_).ravel().tolist()} - a point farther than ~38.6 from every initial centre gets responsibilities 0/0"}
+        return {"reproduced": False, "what": "fits on the model's points and on spreads 50/300/900 are finite"}
+
+    return Obligation(f"init-responsibilities-n{n}-K{K}", harness, replay=replay, encodes=[GaussianMixture._initialize_parameters],
+                      bounds=f"n={n} distinct 1-d points with |x| <= {xmax}, K={K}, uniform sample weights, symbolic draws for the centre selection",
+                      stubs=["np.exp -> range abstraction of the double-precision exponential (0 below -745.1)", "np.searchsorted -> forking model", "rng.rand -> symbolic draws",
+                             "_m_step -> capture of the initial responsibilities"], theory="QF_NRA", timeout_ms=30000, max_paths=4000)
+
+
 def make_mstep_fp(n=2):
     """bit-precise: the 'full' covariance of one component in d=1 is never negative, for ALL doubles in a wide range
     (catastrophic cancellation in a moment-difference formula would show up here)."""
@@ -384,7 +470,7 @@ def obligations(tier):
     # make_mstep_rounding decides the same clause in the standard round-off model instead (sound for the real arithmetic)
     obs = [make_mstep(2, 1, 2, "full"), make_mstep(2, 2, 2, "diag"), make_mstep(2, 2, 1, "full"), make_mstep(3, 1, 1, "full"), make_replicas(1, "full"),
            make_hier(6, 1, True), make_hier(5, 2, False), make_hier(8, 2, False, contiguous=True),
-           make_hier(4, 1, True, refit=True), make_mstep_rounding(2, "full")]
+           make_hier(4, 1, True, refit=True), make_mstep_rounding(2, "full"), make_init_responsibilities(3, 2)]
     if tier == "thorough":
         # (n=3 with K=2 or d=2: the PSD query is undecided by nlsat within 30 s - not scheduled)
         obs += [make_mstep(2, 2, 2, "full"), make_mstep(3, 1, 1, "diag"), make_replicas(2, "full"), make_replicas(1, "diag"),
